@@ -970,9 +970,10 @@ def _run(ctx, v, rng, m, thorough, scratch):
                     return formats_oracle(r2) and r2["csv"][0] == "ok"
 
                 def outcome_of(w2):
+                    # (without json_direct: a held file is written differently for a sheet with and without rows)
                     r2, d2 = read_all_formats(w2, scratch, stray)
                     shutil.rmtree(d2["dir"], ignore_errors=True)
-                    return r2
+                    return {f: x for f, x in r2.items() if f != "json_direct"}
                 key = classify(wb, oracle_on, outcome_of)
                 if key in n_fail:
                     n_fail[key] += 1
@@ -1019,7 +1020,7 @@ def _run(ctx, v, rng, m, thorough, scratch):
                 r2, d2 = read_all_formats(w2, scratch)
                 c2 = compile_all_formats(d2)
                 shutil.rmtree(d2["dir"], ignore_errors=True)
-                return (r2, c2)
+                return ({f: x for f, x in r2.items() if f != "json_direct"}, {f: x for f, x in c2.items() if f != "json_direct"})
             key = classify(wb, oracle_on, outcome_of)
             if key in c_fail:
                 c_fail[key] += 1
